@@ -38,7 +38,11 @@ class Cfg:
     registrars: (name, meter, pre, unreg[, kept]); tusers: (name, tracer, pre[, kept])."""
 
     def __init__(self, name, minst=1, creators=(), registrars=(), tinst=0, tusers=(), xkinds=(), xscripts=None,
-                 recs=1, spans=1, uses=1, refuse_reg=(), refuse_inst=(), invokers=(), shared_obs=False, shape="atomic"):
+                 recs=1, spans=1, uses=1, refuse_reg=(), refuse_inst=(), invokers=(), shared_obs=False, shape="atomic",
+                 ids=None, key_fields=(1, 2, 3, 4), sdkobs=(), premeter=(), skip_empty=False):
+        # ids: owner -> (name, kind, unit, description) (default: a name of its own); key_fields / skip_empty: deviation switches;
+        # sdkobs: registrars whose observable is created on SDK r1 itself; premeter: owners whose Meter is obtained beforehand
+        self.ids, self.key_fields, self.sdkobs, self.premeter, self.skip_empty = dict(ids or {}), key_fields, list(sdkobs), list(premeter), skip_empty
         # refuse_*: names the delegate SDK refuses; invokers: (name, callback); shared_obs / shape: deviation switches
         self.refuse_reg, self.refuse_inst, self.invokers = list(refuse_reg), list(refuse_inst), list(invokers)
         self.shared_obs, self.shape = shared_obs, shape
@@ -73,15 +77,33 @@ class Cfg:
             "REFUSEREG": tset(self.refuse_reg), "REFUSEINST": tset(self.refuse_inst),
             "INVOKERS": tset(v[0] for v in self.invokers), "CBOF": tfun(self.invokers),
             "SHAREDOBS": "TRUE" if self.shared_obs else "FALSE", "SHAPE": '"%s"' % self.shape,
+            "IDOF": ("(" + " @@ ".join('"%s" :> <<%s>>' % (o, ", ".join('"%s"' % f for f in self.ident(o))) for o in self.owners()) + ")")
+            if self.owners() else '[x \\in {} |-> <<>>]',
+            "KEYFIELDS": "{" + ", ".join(str(f) for f in self.key_fields) + "}",
+            "SDKOBS": tset(self.sdkobs), "PREMETER": tset(self.premeter), "SKIPEMPTY": "TRUE" if self.skip_empty else "FALSE",
             "RECSPER": self.recs, "SPANSPER": self.spans, "USESPER": self.uses,
             "PATCHED": "TRUE" if patched else "FALSE", "ALLOWKNOWN": "TRUE" if known else "FALSE"}
+
+    def owners(self):
+        return [c[0] for c in self.creators] + [g[0] for g in self.registrars]
+
+    def ident(self, o):
+        return self.ids.get(o, (o, "k", "", ""))
+
+    def idfields(self, o, obs):
+        n, k, u, d = self.ident(o)
+        if o not in self.ids:
+            return {}
+        return dict(inst=n, unit=u, desc=d, ikind=(k if k != "k" else ("i64ocounter" if obs else "i64counter")))
 
     def procs(self):
         kept = set(self.kept())
         kind = lambda n: "minst" if n.startswith("i") else "tinst" if n.startswith("ti") else "xinst"
         ps = [dict(name=n, kind=kind(n), script=sc, **({"x": n[3:]} if kind(n) == "xinst" else {})) for n, sc in self.insts()]
-        ps += [dict(name=c[0], kind="creator", meter=c[1], pre=c[2], n=self.recs, kept=c[0] in kept) for c in self.creators]
-        ps += [dict(name=g[0], kind="registrar", meter=g[1], pre=g[2], unreg=g[3], kept=g[0] in kept) for g in self.registrars]
+        ps += [dict(name=c[0], kind="creator", meter=c[1], pre=c[2], n=self.recs, kept=c[0] in kept, premeter=c[0] in self.premeter,
+                    **self.idfields(c[0], False)) for c in self.creators]
+        ps += [dict(name=g[0], kind="registrar", meter=g[1], pre=g[2], unreg=g[3], kept=g[0] in kept, premeter=g[0] in self.premeter,
+                    sdkobs=g[0] in self.sdkobs, **self.idfields(g[0], True)) for g in self.registrars]
         ps += [dict(name=u[0], kind="tuser", tracer=u[1], pre=u[2], n=self.spans, kept=u[0] in kept) for u in self.tusers]
         ps += [dict(name="xu." + k, kind="xuser", x=k, n=self.uses) for k in self.xkinds]
         ps += [dict(name=v[0], kind="invoker", target=v[1], n=1) for v in self.invokers]
@@ -111,13 +133,32 @@ FAMILY_QUICK = [
     Cfg("m-refuse-invoke", creators=[C("c1", pre=True)],
         registrars=[G("g1", pre=True), G("g2", pre=True, unreg=False), G("g3", unreg=False)],
         refuse_reg=["g1"], refuse_inst=["c1"], invokers=[("n1", "g2"), ("n2", "g2"), ("n3", "g1")]),
+    # placeholder identity (name, kind, unit, description) and meter shapes at hand-over: m1 instruments only (c1/c2 differ in
+    # the unit only, c3 repeats c1's identity), m2 callbacks only (observable created on the SDK itself), m3 empty, m4 both
+    Cfg("m-identity-shapes", creators=[C("c1", pre=True), C("c2", pre=True), C("c3"), C("c4", "m3")],
+        registrars=[G("g1", "m2", pre=True, unreg=False), G("g2", "m4", pre=True, unreg=False)], sdkobs=["g1"], premeter=["c4"],
+        ids={"c1": ("x", "f64hist", "ms", "d"), "c2": ("x", "f64hist", "s", "d"), "c3": ("x", "f64hist", "ms", "d")}),
 ]
+IDSHAPES = FAMILY_QUICK[-1]
+
+
+def variant(c, name, **kw):
+    import copy
+    v = copy.copy(c)
+    v.name = name
+    for k, val in kw.items():
+        setattr(v, k, val)
+    return v
+
+
 # shape switches: TLC must exhibit the deviations (Contract / *Connected violated), and the repaired shape is clean
 DEVIATIONS = [
     ("split-tracer", Cfg("dev-split-tracer", minst=0, tinst=1, tusers=[U("u1", pre=True), U("u2")], shape="split"), True),
     ("split-meter", Cfg("dev-split-meter", creators=[C("c1", pre=True), C("c2")], registrars=[G("g1", unreg=False)], shape="split"), True),
     ("recheck-tracer", Cfg("dev-recheck-tracer", minst=0, tinst=1, tusers=[U("u1", pre=True), U("u2"), U("u3", "t2")], shape="recheck"), False),
     ("recheck-meter", Cfg("dev-recheck-meter", creators=[C("c1", pre=True), C("c2")], registrars=[G("g1", unreg=False)], shape="recheck"), False),
+    ("key-without-unit", variant(IDSHAPES, "dev-key-without-unit", key_fields=(1, 2, 4)), True),
+    ("skip-empty-meter", variant(IDSHAPES, "dev-skip-empty-meter", skip_empty=True), True),
     ("shared-observer", Cfg("dev-shared-observer", registrars=[G("g1", pre=True, unreg=False)], invokers=[("n1", "g1"), ("n2", "g1")],
                             shared_obs=True), True),
 ]
@@ -213,6 +254,81 @@ DIRECTED = [
 ]
 
 
+SYNC_KINDS = ["i64counter", "i64updown", "i64hist", "i64gauge", "f64counter", "f64updown", "f64hist", "f64gauge"]
+OBS_KINDS = ["i64ocounter", "i64oupdown", "i64ogauge", "f64ocounter", "f64oupdown", "f64ogauge"]
+
+
+def identity_scenarios():
+    """Placeholder identity = (name, kind, unit, description): for every one of the 14 constructors a pair of pre-install
+    instruments that differ in exactly one field (unit / description), pairs that differ in the kind only, and a pair with
+    identical identity. Each must be delegated as its own SDK instrument and every measurement must reach ITS instrument."""
+    out = []
+    for field, other in (("unit", "s"), ("desc", "other")):
+        procs = [dict(name="i1", kind="minst", script=["self", "r1"])]
+        for k in SYNC_KINDS + OBS_KINDS:
+            a = dict(name="a_" + k, meter="m1", pre=True, ikind=k, inst="x_" + k, unit="ms", desc="d")
+            a.update(dict(kind="creator", n=1) if k in SYNC_KINDS else dict(kind="registrar"))
+            b = dict(a, name="b_" + k)
+            b[field] = other
+            procs += [a, b]
+        out.append(dict(name="identity-" + field, procs=procs, perturb=0.0))
+    procs = [dict(name="i1", kind="minst")]
+    for i, (k1, k2) in enumerate([("i64counter", "i64updown"), ("i64hist", "f64hist"), ("f64counter", "f64gauge"), ("i64gauge", "f64updown"),
+                                  ("i64ocounter", "i64oupdown"), ("i64ogauge", "f64ogauge"), ("f64ocounter", "f64oupdown")]):
+        for nm, k in (("a", k1), ("b", k2)):
+            p = dict(name="%s%d" % (nm, i), meter="m1", pre=(nm == "a" or i % 2 == 0), ikind=k, inst="y%d" % i, unit="1", desc="d")
+            p.update(dict(kind="creator", n=1) if k in SYNC_KINDS else dict(kind="registrar"))
+            procs.append(p)
+    # identical identity: one instrument, both measurements on it
+    procs += [dict(name="s1", kind="creator", meter="m1", pre=True, n=1, ikind="f64hist", inst="same", unit="ms", desc="d"),
+              dict(name="s2", kind="creator", meter="m1", pre=True, n=1, ikind="f64hist", inst="same", unit="ms", desc="d"),
+              dict(name="s3", kind="creator", meter="m2", pre=True, n=1, ikind="f64hist", inst="same", unit="ms", desc="d")]
+    out.append(dict(name="identity-kind-and-same", procs=procs, perturb=0.0))
+    return out
+
+
+def meter_shape_scenarios():
+    """What a placeholder meter holds when it is handed over: instruments only / callbacks only (observables created on the
+    SDK itself) / both / nothing (instrument created through it later)."""
+    return [
+        dict(name="meter-shapes-sequential", perturb=0.0,
+             procs=[dict(name="i1", kind="minst"), dict(name="g1", kind="registrar", meter="m1", pre=True, sdkobs=True),
+                    dict(name="g2", kind="registrar", meter="m2", pre=True, sdkobs=True, unreg=True, ikind="f64ogauge"),
+                    dict(name="g3", kind="registrar", meter="m3", pre=True), dict(name="c2", kind="creator", meter="m3", pre=True, n=1),
+                    dict(name="c3", kind="creator", meter="m5", pre=True, n=1),
+                    dict(name="c1", kind="creator", meter="m4", premeter=True, n=2, delayUs=3000),
+                    dict(name="g4", kind="registrar", meter="m6", premeter=True, delayUs=3000)]),
+        dict(name="meter-shapes-concurrent", perturb=0.7,
+             procs=[dict(name="i1", kind="minst", script=["self", "r1", "r2"]), dict(name="g1", kind="registrar", meter="m1", pre=True, sdkobs=True),
+                    dict(name="g2", kind="registrar", meter="m1", sdkobs=True, unreg=True), dict(name="g3", kind="registrar", meter="m2", sdkobs=True),
+                    dict(name="c1", kind="creator", meter="m3", premeter=True, n=3), dict(name="g4", kind="registrar", meter="m3", premeter=True, unreg=True),
+                    dict(name="n1", kind="invoker", target="g1", n=2), dict(name="n2", kind="invoker", target="g1", n=2)]),
+    ]
+
+
+def hammer_scenarios():
+    """For the race detector: goroutines use the placeholder propagator (Inject / Extract / Fields), error handler, tracers and
+    instruments in tight loops WITHOUT any logging (every logged event is a happens-before edge of the harness's own that
+    would hide a race inside internal/global) while the installers run; a few logged users and callbacks ride along."""
+    out = []
+    for i, n in enumerate((3000, 6000, 1500, 4000)):
+        procs = [dict(name="xi.prop", kind="xinst", x="prop", script=[["r1"], ["self", "r1", "r2"]][i % 2], delayUs=[100, 400, 50, 800][i]),
+                 dict(name="xi.eh", kind="xinst", x="eh", script=[["r1"], ["r1", "r2"]][i % 2], delayUs=[300, 100, 600, 50][i]),
+                 dict(name="ti1", kind="tinst", delayUs=[200, 700, 100, 300][i]), dict(name="i1", kind="minst", delayUs=[400, 200, 900, 100][i])]
+        for j in range(3):
+            procs += [dict(name="xq%d.prop" % j, kind="xuser", x="prop", n=n, quiet=True), dict(name="xq%d.eh" % j, kind="xuser", x="eh", n=n, quiet=True),
+                      dict(name="uq%d" % j, kind="tuser", tracer="t1", pre=True, n=n // 4, quiet=True),
+                      dict(name="cq%d" % j, kind="creator", meter="m1", pre=True, n=n // 2, quiet=True, ikind=["f64hist", "i64counter", "i64gauge"][j])]
+        procs += [dict(name="xu.prop", kind="xuser", x="prop", n=20, fresh=True), dict(name="xu.eh", kind="xuser", x="eh", n=20),
+                  dict(name="u1", kind="tuser", tracer="t1", pre=True, n=20), dict(name="u2", kind="tuser", tracer="t1", n=10),
+                  dict(name="c1", kind="creator", meter="m1", pre=True, n=20), dict(name="c2", kind="creator", meter="m1", n=10),
+                  dict(name="g1", kind="registrar", meter="m1", pre=True, unreg=(i % 2 == 1)), dict(name="g2", kind="registrar", meter="m1", unreg=True),
+                  dict(name="k1", kind="collector", n=3), dict(name="k2", kind="collector", n=3),
+                  dict(name="n1", kind="invoker", target="g1", n=2), dict(name="n2", kind="invoker", target="g1", n=2)]
+        out.append(dict(name="hammer-%d" % n, perturb=[0.0, 0.3][i % 2], procs=procs))
+    return out
+
+
 def classify(v):
     """violation record of the contract monitor -> small flat signature"""
     k = v["kind"]
@@ -296,13 +412,13 @@ def run(ctx):
 
     # ------------------------------------------------------------ spec -> code: behaviours as gate scripts
     scenarios = []
-    sims = [FAMILY_QUICK[0], FAMILY_QUICK[1], FAMILY_QUICK[2], FAMILY_QUICK[4], FAMILY_QUICK[6],
+    sims = [FAMILY_QUICK[0], FAMILY_QUICK[1], FAMILY_QUICK[2], FAMILY_QUICK[4], FAMILY_QUICK[6], FAMILY_QUICK[7],
             Cfg("s-mt", minst=[["self", "r1"]], creators=[C("c1", pre=True), C("c2", "m2")],
                 registrars=[G("g1", pre=True), G("g2", "m2")], tinst=[["r1", "r2"]],
                 tusers=[U("u1", pre=True), U("u2")], recs=2, spans=2)]
     if thorough:
         sims += FAMILY_THOROUGH[:2] + FAMILY_THOROUGH[4:] + [FAMILY_QUICK[3], FAMILY_QUICK[5]]
-    nsim = 250 if thorough else 20
+    nsim = 250 if thorough else 18
     seen = set()
     stuck_beh = 0
     for c in sims:
@@ -331,7 +447,11 @@ def run(ctx):
                                   procs=[dict(name="i1", kind="minst", delayUs=delay), dict(name="c1", kind="creator", meter="m1", slow=slow, n=1),
                                          dict(name="g1", kind="registrar", meter="m2", slow=slow, unreg=False),
                                          dict(name="c2", kind="creator", meter="m3", pre=True, n=1)]))
-    ctx.extra["slow_config_race_scenarios"] = nslow
+    special = identity_scenarios() + meter_shape_scenarios()
+    scenarios += special
+    nslow += len(special)
+    ctx.extra["slow_config_race_scenarios"] = nslow - len(special)
+    ctx.extra["identity_and_meter_shape_scenarios"] = len(special)
     nrand = 3000 if thorough else 140
     sfile = os.path.join(ctx.work, "scenarios.json")
     json.dump(scenarios, open(sfile, "w"))
@@ -354,18 +474,21 @@ def run(ctx):
     # binding check: the model's deadlocking behaviours must deadlock the real code somewhere (or the tree is repaired,
     # in which case the known finding is simply not hit and TLC's NoKnown result is model-only)
     # ------------------------------------------------------------ auxiliary: the same schedules under the race detector
-    if thorough:
+    if True:
         try:
             rbin = ctx.go_build("c16", race=True)
         except Exception as e:  # no cgo toolchain: stated, not a verdict
             rbin = None
             ctx.assumptions.append("race detector build unavailable: %s" % str(e)[:200])
         if rbin:
-            sub = [s for s in scenarios if not (s.get("model") or {}).get("stuck")][:150] + [dict(d, perturb=0.0) for d in DIRECTED]
+            # quick: the hammer scenarios only; thorough: also a rerun of the replayed / directed schedules and random ones
+            sub = hammer_scenarios() * (3 if thorough else 1)
+            if thorough:
+                sub += [s for s in scenarios if not (s.get("model") or {}).get("stuck")][:150] + [dict(d, perturb=0.0) for d in DIRECTED]
             sfile2 = os.path.join(ctx.work, "scenarios-race.json")
             json.dump(sub, open(sfile2, "w"))
             tf2, rf2 = os.path.join(ctx.work, "trace-race.ndjson"), os.path.join(ctx.work, "res-race.json")
-            ctx.run([rbin, "batch", "-in", sfile2, "-out", tf2, "-res", rf2, "-par", str(par), "-random", "300"], timeout=6000,
+            ctx.run([rbin, "batch", "-in", sfile2, "-out", tf2, "-res", rf2, "-par", str(par), "-random", "300" if thorough else "0"], timeout=6000,
                     env={"GORACE": "halt_on_error=1"})
             res2 = json.load(open(rf2))
             side2 = json.load(open(rf2 + ".side.json"))
@@ -378,7 +501,8 @@ def run(ctx):
         "gate passages (harness gates before calls, delegate-SDK methods called under the package's locks)",
         "a blocked scenario counts as a deadlock only if a stop-the-world goroutine dump shows every unfinished scenario "
         "goroutine parked in sync.Mutex.Lock inside internal/global (twice in a row); anything else blocked is inconclusive",
-        "data-race freedom is monitored with -race on the replayed schedules in the thorough tier only (auxiliary, not model checking)",
+        "data-race freedom is not model checking: it is monitored with the race detector (quick: hammer scenarios that use the placeholder "
+        "propagator / error handler / tracers / instruments / callbacks while the installers run; thorough: also the replayed schedules)",
         "Meter()/Tracer() check-then-insert windows contain no call-out and cannot be gated: they are widened with 10k-50k scope "
         "attributes and hit by volume (slow-*-race scenarios); a hand-over that keeps re-submitting a refused item is cut off "
         "after three recorded submissions (the contract clause refused-item-resubmitted is the verdict, not the time-out)",
@@ -413,14 +537,27 @@ def judge(ctx, tf, res, side, label):
                               "cycle (machine load?) [%s]" % (c["scenarios_blocked_unproven"], label))
     for cr in side["crashes"]:
         d = cr.get("detail", "")
-        if "DATA RACE" in d and "otel/internal/global." in d:
-            top = re.findall(r"go\.opentelemetry\.io/otel/internal/global\.([^\s(]+(?:\([^)]*\))?[^\s(]*)", d)
-            ctx.violation({"kind": "data-race", "where": "|".join(sorted(set(top))[:4]), "source": label},
+        tops = race_tops(d)
+        if "DATA RACE" in d and any("otel/internal/global." in t for t in tops):
+            short = sorted(set(t.split("otel/internal/global.")[-1] if "otel/internal/global." in t else t.split("/")[-1] for t in tops))
+            ctx.violation({"kind": "data-race", "where": "|".join(short[:2]), "source": label},
                           replay={"scenario": cr.get("scenario"), "race_report": d})
         elif "panic:" in d and "otel/internal/global." in d:
             ctx.violation({"kind": "panic-crash", "source": label}, replay={"scenario": cr.get("scenario"), "stderr": d})
         else:
             ctx.note_inconclusive("child %s (%s) %s: %s" % (cr.get("sc"), cr.get("name"), cr.get("status"), d[:300]))
+
+
+def race_tops(report):
+    """the top function of each of the two conflicting accesses of the first race report"""
+    tops = []
+    lines = report.splitlines()
+    for i, ln in enumerate(lines):
+        if re.match(r"^(Read|Write|Previous read|Previous write|Atomic \w+|Previous atomic \w+) at 0x\w+ by ", ln.strip()) and i + 1 < len(lines):
+            tops.append(re.sub(r"\([^()]*\)$", "", lines[i + 1].strip()))
+        if len(tops) == 2:
+            break
+    return tops
 
 
 def dump_shows_cycle(d):
